@@ -9,12 +9,13 @@
 (*   "sorted"  MeshTri1 default (sort_t = True: every cell sorted ascending)   *)
 (*   "asgiven" every other class, and MeshTri1 with sort_t = False             *)
 (* Which = "main"  : the pairs inside the claim - every design clause holds.   *)
-(* Which = "quadp" : named deviations on quadrilaterals under cyclic shifts:   *)
-(*                   QuadPFacetModesUnoriented (DESIGN 7 #11: several DOFs per *)
-(*                   facet, DirConsistent violated) and QuadN1TangentUnoriented*)
-(*                   (reference tangents of ElementQuadN1 are not uniformly    *)
-(*                   oriented w.r.t. the local facet direction, SignsEqual     *)
-(*                   violated); reported through the known-finding mechanism.  *)
+(* Which = "quadp" : named deviation QuadPFacetModesUnoriented (DESIGN 7 #11): *)
+(*                   several DOFs per facet on quadrilaterals under cyclic     *)
+(*                   shifts - DirConsistent is violated; reported through the  *)
+(*                   known-finding mechanism.                                  *)
+(* Which = "quadn1pre" : regression model of ElementQuadN1 before fix f058432  *)
+(*                   (reference tangents not uniformly oriented): TLC must     *)
+(*                   refute SignsEqual; the current table is in "main".        *)
 (* The exclusion of the statement (triangles with sort_t = False and several   *)
 (* DOFs per facet) is witnessed by an ASSUME: the design fails there.          *)
 EXTENDS Conformity, MC_Universe
@@ -84,12 +85,16 @@ TriLayoutsAll ==
    Lay("TriN2", 0, 0, 2, 2, TriDirs, TRUE, "hcurl"), Lay("TriMorley", 1, 0, 1, 0, TriDirs, TRUE, "none"),
    Lay("TriArgyris", 6, 0, 1, 0, TriDirs, TRUE, "none")}
 TriLayoutsUndirected == {L \in TriLayoutsAll : ~L.directed}
-QuadLayouts == {Lay("Quad2", 1, 0, 1, 1, QuadDirs, FALSE, "none"), Lay("QuadRT1", 0, 0, 1, 0, QuadDirs, FALSE, "hdiv")}
+\* element_quad_n1.py lbasis (after fix f058432): the reference tangents run along the local facet direction
+\* lf[s] on all four facets, which is what ElementHcurl.orient assumes
+QuadN1Layout == [Lay("QuadN1", 0, 0, 1, 0, QuadDirs, FALSE, "hcurl") EXCEPT !.tdirs = CodeLF("quad")]
+QuadLayouts == {Lay("Quad2", 1, 0, 1, 1, QuadDirs, FALSE, "none"), Lay("QuadRT1", 0, 0, 1, 0, QuadDirs, FALSE, "hdiv"),
+                QuadN1Layout}
 QuadPLayout == Lay("QuadP3", 1, 0, 2, 4, QuadDirs, TRUE, "none")
-\* element_quad_n1.py lbasis: the reference tangents run 1->0, 1->2, 3->2, 0->3 (0-based), i.e. against the local
-\* facet direction on slots 0 and 2 and along it on slots 1 and 3
-QuadN1Layout == [Lay("QuadN1", 0, 0, 1, 0, QuadDirs, FALSE, "hcurl") EXCEPT !.tdirs = << <<2, 1>>, <<2, 3>>, <<4, 3>>, <<1, 4>> >>]
-QuadOrientedLayouts == {QuadPLayout, QuadN1Layout}
+\* regression model: element_quad_n1.py BEFORE fix f058432 - the reference tangents ran 1->0, 1->2, 3->2, 0->3
+\* (0-based), i.e. against the local facet direction on slots 0 and 2 and along it on slots 1 and 3.  TLC must
+\* refute SignsEqual for it under cyclic shifts (Which = "quadn1pre").
+QuadN1PreRepairLayout == [Lay("QuadN1pre", 0, 0, 1, 0, QuadDirs, FALSE, "hcurl") EXCEPT !.tdirs = << <<2, 1>>, <<2, 3>>, <<4, 3>>, <<1, 4>> >>]
 TetLayouts  == {Lay("TetP2", 1, 1, 0, 0, <<>>, FALSE, "none"), Lay("TetCCR", 1, 1, 1, 1, <<>>, FALSE, "none"),
                 Lay("TetRT1", 0, 0, 1, 0, <<>>, FALSE, "hdiv"), Lay("TetN1", 0, 1, 0, 0, <<>>, FALSE, "hcurl")}
 HexLayouts  == {Lay("Hex2", 1, 1, 1, 1, <<>>, FALSE, "none"), Lay("HexRT1", 0, 0, 1, 0, <<>>, FALSE, "hdiv")}
@@ -102,12 +107,14 @@ MainScenarios ==
   {Sc(v, "sorted", TriLayoutsAll) : v \in AllVariants("tri2") \cup AllVariants("tri2b")}
   \cup {Sc(v, "asgiven", TriLayoutsUndirected) : v \in AllVariants("tri2") \cup (IF Tier = "quick" THEN {} ELSE AllVariants("tri2b"))}
   \cup {Sc(v, "asgiven", QuadLayouts) : v \in AllVariants("quad2") \cup AllVariants("quad2v") \cup AllVariants("quad4")}
-  \cup UNION {{Sc(Unshifted(Base[n], pi), "asgiven", QuadOrientedLayouts) : pi \in SafeNumberings(Base[n].nv)} : n \in {"quad2", "quad2v", "quad4"}}
+  \cup UNION {{Sc(Unshifted(Base[n], pi), "asgiven", {QuadPLayout}) : pi \in SafeNumberings(Base[n].nv)} : n \in {"quad2", "quad2v", "quad4"}}
   \cup {Sc(v, "asgiven", TetLayouts) : v \in AllVariants("tet2") \cup AllVariants("tet2b")}
   \cup {Sc(v, "asgiven", HexLayouts) : v \in AllVariants("hex2") \cup AllVariants("hex2v")}
 QuadPScenarios ==
-  {Sc(v, "asgiven", QuadOrientedLayouts) : v \in AllVariants("quad2") \cup AllVariants("quad2v")}
-Scenarios == IF Which = "main" THEN MainScenarios ELSE QuadPScenarios
+  {Sc(v, "asgiven", {QuadPLayout}) : v \in AllVariants("quad2") \cup AllVariants("quad2v")}
+QuadN1PreScenarios ==
+  {Sc(v, "asgiven", {QuadN1PreRepairLayout}) : v \in AllVariants("quad2") \cup AllVariants("quad2v")}
+Scenarios == IF Which = "main" THEN MainScenarios ELSE IF Which = "quadp" THEN QuadPScenarios ELSE QuadN1PreScenarios
 
 \* ---- connectivity as the classes compute it (MeshTopology!BuildEntitiesImpl / BuildInverseImpl) ----
 ConnLite(m, ctor) ==
